@@ -3,7 +3,7 @@
 # In the scratch worktree /tmp/evalwt: (1) patch applies, builds, whole suite passes; (2) demo fails with the patch; (3) demo passes without.
 set -u
 D="$1"; DEST="$2"; ARGS="$3"; MODFILE="${4:-}"; MODLINE="${5:-}"
-W=/tmp/evalwt
+W=${EVALWT:-/tmp/evalwt}
 cd $W || exit 2
 git checkout -q -- . ; git clean -fdq -e target
 git apply "$D/patch.diff" || { echo "PATCH DOES NOT APPLY"; exit 1; }
